@@ -3,7 +3,7 @@
    get_children_of_type and of the `parent` assignment of process_node).  Hypotheses:
      uniq root            the model objects of the containment tree have distinct identities (Python id())
      no_parent_attr root  no grammar attribute is called `parent` (outside: known finding, see *_refuted) *)
-From TxV Require Import Core.Base Gen.SrcNav Gen.SrcNavBody Model.Nav Model.NavSrc Model.NavCfg Proofs.NavProofs Proofs.NavSrcProofs Proofs.NavCfgProofs.
+From TxV Require Import Core.Base Gen.SrcNav Gen.SrcNavBody Model.Nav Model.NavSrc Model.NavCfg Model.NavParent Proofs.NavProofs Proofs.NavSrcProofs Proofs.NavCfgProofs Proofs.NavParentProofs.
 
 (* Tie to the source (Gen/SrcNav.v is regenerated from textx/model.py on every run): the entry of
    parser._inst_stack that process_node assigns to `parent` is the top of the stack — the instance
@@ -161,6 +161,48 @@ Proof.
   vm_compute. discriminate.
 Qed.
 Print Assumptions C05_get_model_parent_attr_refuted.
+
+(* The known finding, stated over the model with Python's reading of an attribute called `parent`
+   (Model/NavParent.v: getattr(elem, "parent") is what the heap holds, not the slot value).
+   (1) Where no attribute is called `parent` that reading changes nothing: the traversal over the
+   Python attributes is the tree recursion of Model/Nav.v, for any heap and any recursion limit
+   above the size of the subtree — so the classifier's class is exactly where the tree model
+   stops being the code. *)
+Theorem C05_getattr_model_exact : forall root h sel sf cf elem,
+  no_parent_attr elem = true ->
+  forall fuel st, length (nodes elem) < fuel ->
+    followp root h fuel sel sf cf elem st = FOk (follow sel sf cf elem st).
+Proof. exact followp_follow. Qed.
+Print Assumptions C05_getattr_model_exact.
+
+(* (2) a containment attribute `parent=INT` of a nested rule: the traversal made on every load
+   (from the root, nothing selected) exceeds Python's recursion limit — the model cannot be loaded
+   (corpus/C05/parent_attr_nested.json: RecursionError) *)
+Theorem C05_parent_attr_nested_refuted :
+  uniq ex_parent_nested /\
+  followp ex_parent_nested (heap_of ex_parent_nested) 1000 (fun _ => false) (fun _ => true) false
+          ex_parent_nested ([], []) = FRecursion.
+Proof. exact parent_nested_symptom. Qed.
+Print Assumptions C05_parent_attr_nested_refuted.
+
+(* (3) a list attribute `parent+=R2` of a nested rule: get_children iterates over the container
+   object (corpus/C05/parent_attr_list.json: TypeError "object is not iterable") *)
+Theorem C05_parent_attr_list_refuted :
+  uniq ex_parent_list /\
+  followp ex_parent_list (heap_of ex_parent_list) 1000 (fun _ => false) (fun _ => true) false
+          ex_parent_list ([], []) = FTypeError.
+Proof. exact parent_list_symptom. Qed.
+Print Assumptions C05_parent_attr_list_refuted.
+
+(* (4) a reference `parent=[R1]`: the resolved reference replaces the container link, and two
+   objects referring to each other make get_model run forever (every fuel is exhausted)
+   (corpus/C05/parent_attr_reference.json) *)
+Theorem C05_parent_attr_reference_refuted :
+  uniq ex_parent_ref /\
+  lookup 1 (heap_of ex_parent_ref) = Some {| hcls := [82;49]%N; hparent := Some (PObj 2) |} /\
+  forall fuel, get_model (heap_of ex_parent_ref) fuel 1 = GFuel.
+Proof. exact parent_reference_symptom. Qed.
+Print Assumptions C05_parent_attr_reference_refuted.
 
 (* non-vacuity: a tree with nested containment and a back reference satisfies the hypotheses *)
 Example C05_nonvacuous_hyps :
